@@ -16,7 +16,10 @@ import (
 // C18: (a) "struct": structure snapshot (objects with parent + children order, edges with endpoints, per board)
 // before vs after the real LayoutNested under dagre and ELK, plus the contract of the core layout checked on every
 // call; (b) "nest": the real ExtractSubgraph / InjectNested / SaveOrder on compiled graphs vs the Lean arena model.
-func main() { hl.Main("C18", run) }
+func main() {
+	lay.MaybeChild()
+	hl.Main("C18", run)
+}
 
 type M = map[string]any
 
@@ -156,12 +159,12 @@ func run(c *hl.Ctx) error {
 	}
 	// (a) full layouts
 	var jobs []lay.Job
-	nProg := lay.DevN(c.Pick(300, 8000))
+	nProg := lay.DevN(c.Pick(500, 8000))
 	weights := []string{"nested", "nested", "nested", "grid", "grid", "seq", "seq", "near", "near", "core", "styled", "boards"}
 	for i := 0; i < nProg; i++ {
 		p := weights[i%len(weights)]
 		src := g.Program(p)
-		for _, e := range []string{"dagre", "elk"} {
+		for _, e := range lay.Engines(i/len(weights), 2) {
 			jobs = append(jobs, lay.Job{Src: src, Engine: e, Tag: p})
 		}
 	}
@@ -170,6 +173,9 @@ func run(c *hl.Ctx) error {
 		if rr == nil {
 			c.Count("budget:not-run")
 			continue
+		}
+		for _, ft := range lay.Features(rr) {
+			c.Count(rr.Engine + ":" + ft)
 		}
 		c.Emit(structCase(rr))
 		c.Count("struct:" + jobs[i].Tag + ":" + rr.Engine)
